@@ -931,6 +931,98 @@ bool prop_C04(Tape& t, Report& rep)
 // ------------------------------------------------------------------------------------------------
 // C07
 // ------------------------------------------------------------------------------------------------
+// Right after every move that changes the castling rights (a king or rook leaves home, a castle, a rook taken on its corner)
+// a four-ply there-and-back shuffle X Y X' Y' is spliced into the game, preferring kings and rooks that carry no right, so that
+// the very same position (placement, side, rights, ep) stands on the board again at once: "has this occurred before" must say
+// yes whatever incremental bookkeeping the rights change and the shuffle went through.  Consumes no tape word (the choice is
+// the first pair that works), so every tape decodes to the game it decoded to before, plus the splices; the rest of the game
+// stays legal because the position is the same, and is cut where the clock or the occurrence count would leave the domain
+// (clock <= 150, no position more than five times).
+static int c07_splice_refresh_shuffles(const ref::Pos& start, std::vector<ref::Move>& moves)
+{
+    auto rights = [](const ref::Pos& p) { return int(p.cK) | int(p.cQ) << 1 | int(p.ck) << 2 | int(p.cq) << 3; };
+    auto quiet_keeping_rights = [&](const ref::Pos& p, bool kingsAndRooks) {
+        std::vector<ref::Move> out;
+        for (auto& m : ref::legal_moves(p))
+        {
+            char k = ref::lower(p.b[m.from]);
+            if (k == 'p' || m.promo || ref::is_capture(p, m) || ref::is_castle(p, m)) continue;
+            if ((k == 'k' || k == 'r') != kingsAndRooks) continue;
+            if (rights(ref::make(p, m)) != rights(p)) continue;
+            out.push_back(m);
+            if (out.size() >= 4) break;
+        }
+        return out;
+    };
+    auto back_of = [](const ref::Pos& p, const ref::Move& m, ref::Move& out) {
+        for (auto& b : ref::legal_moves(p))
+            if (b.from == m.to && b.to == m.from && !b.promo && !ref::is_capture(p, b) && !ref::is_castle(p, b))
+            {
+                out = b;
+                return true;
+            }
+        return false;
+    };
+    ref::Game g(start);
+    std::vector<ref::Move> out;
+    int splices = 0;
+    auto admissible = [&](const ref::Move& m) {
+        ref::Pos n = ref::make(g.cur, m);
+        if (n.half > 150) return false;
+        std::string k = ref::key4(n);
+        int occ = 1;
+        for (auto& kk : g.keys) occ += kk == k;
+        return occ <= 5;
+    };
+    for (const auto& m : moves)
+    {
+        bool legal = false;
+        for (auto& l : ref::legal_moves(g.cur)) legal = legal || (l.from == m.from && l.to == m.to && l.promo == m.promo);
+        if (!legal || !admissible(m)) break;
+        int before = rights(g.cur);
+        g.play(m);
+        out.push_back(m);
+        if (rights(g.cur) == before || splices >= 6 || g.cur.half > 140) continue;
+        bool done = false;
+        for (int xk = 1; xk >= 0 && !done; --xk)
+            for (auto& X : quiet_keeping_rights(g.cur, xk != 0))
+            {
+                if (done) break;
+                ref::Pos p1 = ref::make(g.cur, X);
+                for (int yk = 1; yk >= 0 && !done; --yk)
+                    for (auto& Y : quiet_keeping_rights(p1, yk != 0))
+                    {
+                        ref::Pos p2 = ref::make(p1, Y);
+                        ref::Move Xb, Yb;
+                        if (!back_of(p2, X, Xb)) continue;
+                        ref::Pos p3 = ref::make(p2, Xb);
+                        if (!back_of(p3, Y, Yb)) continue;
+                        ref::Pos p4 = ref::make(p3, Yb);
+                        if (ref::key4(p4) != ref::key4(g.cur)) continue;
+                        ref::Game probe = g;
+                        bool ok = true;
+                        for (const ref::Move* s : {&X, &Y, &Xb, &Yb})
+                        {
+                            ref::Pos n = ref::make(probe.cur, *s);
+                            std::string k = ref::key4(n);
+                            int occ = 1;
+                            for (auto& kk : probe.keys) occ += kk == k;
+                            if (occ > 5 || n.half > 150) ok = false;
+                            probe.play(*s);
+                        }
+                        if (!ok) continue;
+                        for (const ref::Move* s : {&X, &Y, &Xb, &Yb}) out.push_back(*s);
+                        g = probe;
+                        ++splices;
+                        done = true;
+                        break;
+                    }
+            }
+    }
+    moves = out;
+    return splices;
+}
+
 bool prop_C07(Tape& t, Report& rep)
 {
     br::init_engine();
@@ -983,6 +1075,16 @@ bool prop_C07(Tape& t, Report& rep)
     }
     else
         game = gen::gen_game(t, &rep, maxPlies);
+    if (game.kind != "long_game" && game.kind.rfind("special_mate_pool", 0) != 0)
+    {
+        int n = c07_splice_refresh_shuffles(game.start, game.moves);
+        if (n)
+        {
+            rep.cls("c07:shuffle_spliced_after_rights_change");
+            game.cur = game.start;
+            for (auto& m : game.moves) game.cur = ref::make(game.cur, m);
+        }
+    }
     rep.decoded = game.describe();
     Position pos(ref::to_fen(game.start));
     ref::Game g(game.start);
